@@ -102,7 +102,7 @@ func genGuidedHistory(t *rapid.T, a *app.App, maxLen int, persisted bool) []BS {
 		case k < 19 && len(offered) > 0:
 			// a near miss of an offered selector: other case, one character more or less
 			sel := offered[uniformN(t, len(offered), "nearsel")]
-			in = []string{swapCase(sel), sel + "0", sel + " ", sel + sel, sel[:len(sel)-1], "0" + sel}[uniformN(t, 6, "nearkind")]
+			in = []string{swapCase(sel), sel + "0", sel + " ", sel + sel, sel[:len(sel)-1], "0" + sel, sel + "\r", sel + "\t"}[uniformN(t, 8, "nearkind")]
 			if !inputAccepted(in) {
 				in = sel
 			}
